@@ -526,6 +526,19 @@ pub fn jbig2_decode(data: &[u8], globals: &[u8]) -> Result<Vec<u8>> {
 }
 
 pub fn decode(data: &[u8], filter: &StreamFilter) -> Result<Vec<u8>> {
+    #[cfg(pdf_verif)]
+    {
+        let result = decode_inner(data, filter);
+        if let Ok(ref out) = result {
+            crate::verif::add_decoded(out.len());
+        }
+        return result;
+    }
+    #[cfg(not(pdf_verif))]
+    decode_inner(data, filter)
+}
+
+fn decode_inner(data: &[u8], filter: &StreamFilter) -> Result<Vec<u8>> {
     match *filter {
         StreamFilter::ASCIIHexDecode => decode_hex(data),
         StreamFilter::ASCII85Decode => decode_85(data),
